@@ -5,8 +5,23 @@ Dispatch is on node *class*; nothing of loki's own stringifier, evaluation
 mapper or pymbolic's evaluator is used. Integers are Python ints with
 truncating division; reals are ``fractions.Fraction`` (algebraic mode, so no
 rounding alarms) or Python floats; logicals are bools.
+
+Two layers:
+
+* :class:`Sem` - the arithmetic of Fortran values (typed: int / real / logical),
+  parameterised by an overflow limit, the integer-division mode ('trunc' =
+  Fortran, 'exact' = rational arithmetic, used only to *classify* defects) and
+  a ``machine`` mode in which every intermediate value must be exactly
+  representable by gfortran default integers / double precision reals (used
+  when values are compared against compiled code).
+  ``ftext.py`` (text evaluators) uses the same class, so that tree-side and
+  text-side differ only in *how the structure is obtained* (node classes vs.
+  our own parser).
+* :func:`compile_expr` - turns a loki tree into a Python closure ``f(env)``
+  by class dispatch; :func:`feval` / :func:`safe_eval` are the one-shot forms.
 """
 from fractions import Fraction
+import math
 import operator
 
 import pymbolic.primitives as pmbl
@@ -24,7 +39,12 @@ class TooBig(Exception):
     pass
 
 
+class Inexact(TooBig):
+    """machine mode: value not exactly representable (valuation is skipped)"""
+
+
 LIMIT = 10 ** 60
+INT32 = 2 ** 31 - 1
 
 
 def is_int(v):
@@ -53,9 +73,9 @@ def fdiv(a, b):
 
 def fpow(a, b):
     if is_int(b):
+        if abs(b) > 64 and a not in (0, 1, -1):
+            raise TooBig()
         if b >= 0:
-            if abs(a) > 1 and b > 64:
-                raise TooBig()
             r = a ** b
             if is_num(r) and abs(r) > LIMIT:
                 raise TooBig()
@@ -87,14 +107,21 @@ def _sign(a, b):
     return abs(a) if b >= 0 else -abs(a)
 
 
+def _trunc(q):
+    """truncate a rational toward zero"""
+    if isinstance(q, float):
+        return int(q)
+    q = Fraction(q)
+    n = abs(q.numerator) // q.denominator
+    return n if q >= 0 else -n
+
+
 def _mod(a, p):
     if p == 0:
         raise DivByZero()
     if is_int(a) and is_int(p):
         return a - fdiv(a, p) * p
-    q = Fraction(a) / Fraction(p)
-    t = int(q)  # trunc toward zero
-    return a - t * p
+    return a - _trunc(Fraction(a) / Fraction(p)) * p
 
 
 def _modulo(a, p):
@@ -102,9 +129,18 @@ def _modulo(a, p):
         raise DivByZero()
     if is_int(a) and is_int(p):
         return a - (a // p) * p
-    import math
     q = Fraction(a) / Fraction(p)
     return a - math.floor(q) * p
+
+
+def _to_int(a, *k):
+    if is_int(a):
+        return a
+    return _trunc(a)
+
+
+def _to_real(a, *k):
+    return Fraction(a) if not isinstance(a, float) else a
 
 
 INTRINSICS = {
@@ -114,145 +150,338 @@ INTRINSICS = {
     'mod': _mod,
     'modulo': _modulo,
     'sign': _sign,
-    'int': lambda a, *k: int(a) if not isinstance(a, Fraction) else (abs(a.numerator) // a.denominator) * (1 if a >= 0 else -1),
-    'real': lambda a, *k: Fraction(a) if not isinstance(a, float) else a,
-    'dble': lambda a: Fraction(a) if not isinstance(a, float) else a,
+    'int': _to_int,
+    'real': _to_real,
+    'dble': lambda a: _to_real(a),
     'merge': lambda t, f, m: t if m else f,
 }
+# intrinsics whose arguments must all be numeric of one type class (int or real)
+_SAME_TYPE = {'min', 'max', 'mod', 'modulo', 'sign'}
+
+
+class Sem:
+    """Fortran value arithmetic (see module docstring)"""
+
+    def __init__(self, limit=LIMIT, intdiv='trunc', machine=False, real_as='fraction'):
+        self.limit = INT32 if machine else limit
+        self.intdiv = intdiv
+        self.machine = machine
+        self.real_as = real_as
+
+    # -- value checks --------------------------------------------------
+    def chk(self, r):
+        if isinstance(r, bool):
+            return r
+        if isinstance(r, int):
+            if abs(r) > self.limit:
+                raise TooBig()
+            return r
+        if isinstance(r, Fraction):
+            if self.machine:
+                d = r.denominator
+                if d & (d - 1) or d > (1 << 20) or abs(r.numerator) > (1 << 22):
+                    raise Inexact()
+            elif abs(r.numerator) > LIMIT or r.denominator > LIMIT:
+                raise TooBig()
+            return r
+        return r
+
+    @staticmethod
+    def num(v, what):
+        if isinstance(v, bool) or not isinstance(v, (int, Fraction, float)):
+            raise Unevaluable(f'non-numeric operand of {what}')
+        return v
+
+    @staticmethod
+    def log(v, what):
+        if not isinstance(v, bool):
+            raise Unevaluable(f'non-logical operand of {what}')
+        return v
+
+    def real(self, fr):
+        return fr if self.real_as == 'fraction' else float(fr)
+
+    def lit(self, v):
+        """closure for a literal value (machine mode: non-representable literal -> Inexact when evaluated)"""
+        try:
+            v = self.chk(v)
+        except TooBig as e:
+            exc = type(e)
+
+            def f_bad(env):
+                raise exc()
+            return f_bad
+        return lambda env: v
+
+    # -- operations ------------------------------------------------------
+    def add(self, a, b):
+        return self.chk(self.num(a, '+') + self.num(b, '+'))
+
+    def sub(self, a, b):
+        return self.chk(self.num(a, '-') - self.num(b, '-'))
+
+    def mul(self, a, b):
+        return self.chk(self.num(a, '*') * self.num(b, '*'))
+
+    def neg(self, a):
+        return -self.num(a, 'unary -')
+
+    def div(self, a, b):
+        self.num(a, '/'), self.num(b, '/')
+        if self.intdiv == 'exact':
+            if b == 0:
+                raise DivByZero()
+            r = Fraction(a) / Fraction(b)
+            return self.chk(int(r) if r.denominator == 1 and is_int(a) and is_int(b) else r)
+        return self.chk(fdiv(a, b))
+
+    def pow(self, a, b):
+        self.num(a, '**'), self.num(b, '**')
+        if self.intdiv == 'exact' and is_int(a) and is_int(b) and b < 0:
+            if a == 0:
+                raise DivByZero()
+            return self.chk(Fraction(1) / fpow(a, -b))
+        if is_int(b) and abs(b) > 64 and a not in (0, 1, -1):
+            raise TooBig()
+        if is_real(b) and abs(b) > 64:
+            raise TooBig()
+        return self.chk(fpow(a, b))
+
+    def cmp(self, op, a, b):
+        fn = _CMP.get(op)
+        if fn is None:
+            raise Unevaluable(f'comparison operator {op}')
+        return bool(fn(self.num(a, op), self.num(b, op)))
+
+    def and_(self, vals):
+        return all([self.log(v, '.and.') for v in vals])
+
+    def or_(self, vals):
+        return any([self.log(v, '.or.') for v in vals])
+
+    def not_(self, v):
+        return not self.log(v, '.not.')
+
+    def eqv(self, a, b):
+        return self.log(a, '.eqv.') == self.log(b, '.eqv.')
+
+    def call(self, name, args):
+        fn = INTRINSICS.get(name)
+        if fn is None:
+            raise Unevaluable(f'call to {name}')
+        if name == 'merge':
+            if len(args) != 3:
+                raise Unevaluable('merge arity')
+            self.log(args[2], 'merge mask')
+            return args[0] if args[2] else args[1]
+        for a in args:
+            self.num(a, name)
+        if name in _SAME_TYPE and len({is_int(a) for a in args}) > 1:
+            raise Unevaluable(f'mixed-type arguments of {name}')
+        try:
+            return self.chk(fn(*args))
+        except TypeError as e:
+            raise Unevaluable(f'call to {name}: {e}') from e
+
+    def index(self, tgt, name, idx):
+        for i in idx:
+            if not is_int(i):
+                raise Unevaluable(f'non-integer subscript of {name}')
+        if callable(tgt):
+            return tgt(*idx)
+        try:
+            return tgt[idx]
+        except KeyError as e:
+            raise Unevaluable(f'subscript of {name} out of the valuation') from e
+
+
+DEFAULT_SEM = Sem()
+
+
+def float_literal_value(text):
+    """value of a Fortran real literal spelled ``text`` (kind suffix ignored) as Fraction"""
+    txt = str(text).lower().replace('d', 'e')
+    if '_' in txt:
+        txt = txt.split('_')[0]
+    return Fraction(txt)
+
+
+def _fname(f):
+    return str(f.name if hasattr(f, 'name') else f).lower()
+
+
+def compile_expr(expr, sem=DEFAULT_SEM):
+    """loki/pymbolic tree -> closure f(env). env: lower-case name -> value
+    (arrays: callable(*idx) or dict {tuple: value})"""
+    from loki.expression import symbols as sym
+    from loki.expression import operations as ops
+    rec = lambda e: compile_expr(e, sem)  # noqa
+
+    # raw python numbers (pymbolic allows them as children)
+    if isinstance(expr, bool):
+        return lambda env: expr
+    if isinstance(expr, int):
+        return lambda env: expr
+    if isinstance(expr, Fraction):
+        return lambda env: expr
+    if isinstance(expr, float):
+        v = sem.real(Fraction(expr))
+        return lambda env: v
+    try:
+        import numpy as np
+        if isinstance(expr, np.integer):
+            v = int(expr)
+            return lambda env: v
+        if isinstance(expr, np.floating):
+            v = sem.real(Fraction(float(expr)))
+            return lambda env: v
+    except ImportError:
+        pass
+
+    if isinstance(expr, sym.IntLiteral):
+        return sem.lit(int(expr.value))
+    if isinstance(expr, sym.FloatLiteral):
+        return sem.lit(sem.real(float_literal_value(expr.value)))
+    if isinstance(expr, sym.LogicLiteral):
+        v = bool(expr.value)
+        return lambda env: v
+    if isinstance(expr, pmbl.Sum):
+        fs = [rec(c) for c in expr.children]
+        if not fs:
+            raise Unevaluable('empty Sum')
+
+        def f_sum(env):
+            vals = [f(env) for f in fs]
+            r = sem.num(vals[0], '+')
+            for v in vals[1:]:
+                r = sem.add(r, v)
+            return r
+        return f_sum
+    if isinstance(expr, pmbl.Product):
+        fs = [rec(c) for c in expr.children]
+        if not fs:
+            raise Unevaluable('empty Product')
+
+        def f_prod(env):
+            vals = [f(env) for f in fs]
+            r = sem.num(vals[0], '*')
+            for v in vals[1:]:
+                r = sem.mul(r, v)
+            return r
+        return f_prod
+    if isinstance(expr, pmbl.Quotient):
+        fn, fd = rec(expr.numerator), rec(expr.denominator)
+
+        def f_quot(env):
+            a = fn(env)
+            b = fd(env)
+            return sem.div(a, b)
+        return f_quot
+    if isinstance(expr, pmbl.FloorDiv):
+        fn, fd = rec(expr.numerator), rec(expr.denominator)
+
+        def f_floordiv(env):
+            a, b = fn(env), fd(env)
+            if b == 0:
+                raise DivByZero()
+            return a // b
+        return f_floordiv
+    if isinstance(expr, pmbl.Remainder):
+        fn, fd = rec(expr.numerator), rec(expr.denominator)
+
+        def f_rem(env):
+            a, b = fn(env), fd(env)
+            if b == 0:
+                raise DivByZero()
+            return a % b
+        return f_rem
+    if isinstance(expr, pmbl.Power):
+        fb, fe = rec(expr.base), rec(expr.exponent)
+
+        def f_pow(env):
+            a = fb(env)
+            b = fe(env)
+            return sem.pow(a, b)
+        return f_pow
+    if isinstance(expr, pmbl.Comparison):
+        op = expr.operator
+        if op not in _CMP:
+            raise Unevaluable(f'comparison operator {op}')
+        fl, fr = rec(expr.left), rec(expr.right)
+
+        def f_cmp(env):
+            a = fl(env)
+            b = fr(env)
+            return sem.cmp(op, a, b)
+        return f_cmp
+    if isinstance(expr, pmbl.LogicalAnd):
+        fs = [rec(c) for c in expr.children]
+        return lambda env: sem.and_([f(env) for f in fs])
+    if isinstance(expr, pmbl.LogicalOr):
+        fs = [rec(c) for c in expr.children]
+        return lambda env: sem.or_([f(env) for f in fs])
+    if isinstance(expr, pmbl.LogicalNot):
+        fc = rec(expr.child)
+        return lambda env: sem.not_(fc(env))
+    if isinstance(expr, ops.Cast):
+        if len(expr.parameters) != 1:
+            raise Unevaluable('cast arity')
+        fa = rec(expr.parameters[0])
+        name = str(expr.name).lower()
+        if name not in ('int', 'real', 'dble'):
+            raise Unevaluable(f'cast {name}')
+        return lambda env: sem.call(name, [fa(env)])
+    if isinstance(expr, (sym.InlineCall, pmbl.Call)):
+        name = _fname(expr.function)
+        fs = [rec(a) for a in expr.parameters]
+        kw = getattr(expr, 'kw_parameters', None) or {}
+        if any(str(k).lower() != 'kind' for k in kw):
+            raise Unevaluable(f'keyword arguments of {name}')
+
+        def f_call(env):
+            if name not in INTRINSICS:
+                fn = env.get(name)
+                if fn is None or not callable(fn):
+                    raise Unevaluable(f'call to {name}')
+                return fn(*[f(env) for f in fs])
+            return sem.call(name, [f(env) for f in fs])
+        return f_call
+    if isinstance(expr, sym.Array) or (isinstance(expr, sym.MetaSymbol) and getattr(expr, 'dimensions', None)):
+        name = expr.name.lower()
+        dims = getattr(expr, 'dimensions', None) or ()
+        fs = [rec(d) for d in dims]
+
+        def f_arr(env):
+            tgt = env.get(name)
+            if tgt is None:
+                raise Unevaluable(f'unbound array {name}')
+            if not fs:
+                return tgt
+            return sem.index(tgt, name, tuple(f(env) for f in fs))
+        return f_arr
+    if isinstance(expr, (sym.MetaSymbol, pmbl.Variable)):
+        name = expr.name.lower()
+
+        def f_var(env):
+            if name not in env:
+                raise Unevaluable(f'unbound variable {name}')
+            return env[name]
+        return f_var
+    raise Unevaluable(f'node class {type(expr).__name__}')
 
 
 def feval(expr, env, real_as='fraction'):
     """
     env: lower-case name -> value; for arrays name -> callable(*idx) or dict{tuple: value}
     """
-    ev = lambda e: feval(e, env, real_as)  # noqa
+    sem = DEFAULT_SEM if real_as == 'fraction' else Sem(real_as=real_as)
+    return compile_expr(expr, sem)(env)
 
-    # raw python numbers (pymbolic allows them as children)
-    if isinstance(expr, bool):
-        return expr
-    if isinstance(expr, int):
-        return expr
-    if isinstance(expr, Fraction):
-        return expr
-    if isinstance(expr, float):
-        return Fraction(expr) if real_as == 'fraction' else expr
+
+def guarded(fn, env):
+    """run a compiled closure: ('ok', value) | ('div0',) | ('big',) | ('uneval', msg)"""
     try:
-        import numpy as np
-        if isinstance(expr, np.integer):
-            return int(expr)
-        if isinstance(expr, np.floating):
-            return Fraction(float(expr)) if real_as == 'fraction' else float(expr)
-    except ImportError:
-        pass
-
-    from loki.expression import symbols as sym
-    from loki.expression import operations as ops
-
-    if isinstance(expr, sym.IntLiteral):
-        return int(expr.value)
-    if isinstance(expr, sym.FloatLiteral):
-        txt = str(expr.value).lower().replace('d', 'e')
-        if '_' in txt:
-            txt = txt.split('_')[0]
-        v = Fraction(txt)
-        return v if real_as == 'fraction' else float(v)
-    if isinstance(expr, sym.LogicLiteral):
-        return bool(expr.value)
-    if isinstance(expr, pmbl.Sum):
-        vals = [ev(c) for c in expr.children]
-        r = vals[0]
-        for v in vals[1:]:
-            r = r + v
-        if is_num(r) and abs(r) > LIMIT:
-            raise TooBig()
-        return r
-    if isinstance(expr, pmbl.Product):
-        vals = [ev(c) for c in expr.children]
-        r = vals[0]
-        for v in vals[1:]:
-            r = r * v
-        if is_num(r) and abs(r) > LIMIT:
-            raise TooBig()
-        return r
-    if isinstance(expr, pmbl.Quotient):
-        return fdiv(ev(expr.numerator), ev(expr.denominator))
-    if isinstance(expr, pmbl.FloorDiv):
-        a, b = ev(expr.numerator), ev(expr.denominator)
-        if b == 0:
-            raise DivByZero()
-        return a // b
-    if isinstance(expr, pmbl.Remainder):
-        a, b = ev(expr.numerator), ev(expr.denominator)
-        if b == 0:
-            raise DivByZero()
-        return a % b
-    if isinstance(expr, pmbl.Power):
-        return fpow(ev(expr.base), ev(expr.exponent))
-    if isinstance(expr, pmbl.Comparison):
-        op = _CMP.get(expr.operator)
-        if op is None:
-            raise Unevaluable(f'comparison operator {expr.operator}')
-        return bool(op(ev(expr.left), ev(expr.right)))
-    if isinstance(expr, pmbl.LogicalAnd):
-        vals = [ev(c) for c in expr.children]
-        if not all(isinstance(v, bool) for v in vals):
-            raise Unevaluable('non-logical operand of .and.')
-        return all(vals)
-    if isinstance(expr, pmbl.LogicalOr):
-        vals = [ev(c) for c in expr.children]
-        if not all(isinstance(v, bool) for v in vals):
-            raise Unevaluable('non-logical operand of .or.')
-        return any(vals)
-    if isinstance(expr, pmbl.LogicalNot):
-        v = ev(expr.child)
-        if not isinstance(v, bool):
-            raise Unevaluable('non-logical operand of .not.')
-        return not v
-    if isinstance(expr, ops.Cast):
-        v = ev(expr.parameters[0])
-        name = str(expr.name).lower()
-        if name == 'int':
-            return INTRINSICS['int'](v)
-        if name in ('real', 'dble'):
-            return INTRINSICS['real'](v)
-        raise Unevaluable(f'cast {name}')
-    if isinstance(expr, sym.InlineCall):
-        name = str(expr.function.name if hasattr(expr.function, 'name') else expr.function).lower()
-        fn = INTRINSICS.get(name) or env.get(name)
-        if fn is None or not callable(fn):
-            raise Unevaluable(f'call to {name}')
-        args = [ev(a) for a in expr.parameters]
-        return fn(*args)
-    if isinstance(expr, sym.Array) or (isinstance(expr, sym.MetaSymbol) and getattr(expr, 'dimensions', None)):
-        name = expr.name.lower()
-        dims = getattr(expr, 'dimensions', None) or ()
-        tgt = env.get(name)
-        if tgt is None:
-            raise Unevaluable(f'unbound array {name}')
-        if not dims:
-            return tgt
-        idx = tuple(ev(d) for d in dims)
-        if callable(tgt):
-            return tgt(*idx)
-        return tgt[idx]
-    if isinstance(expr, (sym.MetaSymbol, pmbl.Variable)):
-        name = expr.name.lower()
-        if name not in env:
-            raise Unevaluable(f'unbound variable {name}')
-        return env[name]
-    if isinstance(expr, pmbl.Call):
-        name = str(expr.function.name if hasattr(expr.function, 'name') else expr.function).lower()
-        fn = INTRINSICS.get(name) or env.get(name)
-        if fn is None or not callable(fn):
-            raise Unevaluable(f'call to {name}')
-        return fn(*[ev(a) for a in expr.parameters])
-    raise Unevaluable(f'node class {type(expr).__name__}')
-
-
-def safe_eval(expr, env, real_as='fraction'):
-    """returns ('ok', value) | ('div0',) | ('big',) | ('uneval', msg)"""
-    try:
-        return ('ok', feval(expr, env, real_as))
+        return ('ok', fn(env))
     except DivByZero:
         return ('div0',)
     except TooBig:
@@ -261,3 +490,19 @@ def safe_eval(expr, env, real_as='fraction'):
         return ('uneval', str(e))
     except (OverflowError, ZeroDivisionError):
         return ('div0',)
+
+
+def safe_compile(expr, sem=DEFAULT_SEM):
+    """closure env -> status tuple (never raises for evaluation problems)"""
+    try:
+        fn = compile_expr(expr, sem)
+    except Unevaluable as e:
+        msg = str(e)
+        return lambda env: ('uneval', msg)
+    return lambda env: guarded(fn, env)
+
+
+def safe_eval(expr, env, real_as='fraction'):
+    """returns ('ok', value) | ('div0',) | ('big',) | ('uneval', msg)"""
+    sem = DEFAULT_SEM if real_as == 'fraction' else Sem(real_as=real_as)
+    return safe_compile(expr, sem)(env)
